@@ -109,9 +109,15 @@ func r7(l link) (kind, val string) {
 	return "err", ""
 }
 
+var theRun *vr.Run
+
 func observe(s string) (kind, val string, panicked bool, pmsg, frame string) {
 	var d deeplinks.Deeplink
 	var err error
+	if theRun != nil {
+		theRun.Begin("resolve", s, map[string]any{"Link": s, "Perm": 0})
+		defer theRun.End()
+	}
 	panicked, pmsg, frame = vr.Try(func() { d, err = deeplinks.Resolve(s) })
 	if panicked {
 		return "panic", "", true, pmsg, frame
@@ -162,6 +168,8 @@ func class(l link) string {
 
 func main() {
 	run := vr.New("C20", "exploration")
+	defer run.Recover()
+	theRun = run
 	freepass.MaybeReplay(run)
 	run.Rule("full product scheme x host x port x path(0..3 segments, optional trailing slash) x tail, each under both orders of the template table; a case is non-trivial when it is distinct and the statement determines its result (strict sub-product) or it reaches the resolver past URL parsing")
 	run.Assume("reference resolver R7 is written from the property statement",
